@@ -12,13 +12,13 @@ import buildlib  # noqa: E402
 
 
 def pre(tier, seed):
-    """Thorough tier only: the whole guard catalogue once more under valgrind memcheck (-O2 build), which sees use of uninitialised values
+    """Thorough tier only: the whole guard catalogue once more under valgrind memcheck (g++ -O0 build, hooks off), which sees use of uninitialised values
     that ASan cannot.  A memcheck error makes the child exit with status 97, which the process-outcome oracle reports like any other wrong outcome."""
     if tier != "thorough":
         return []
     if shutil.which("valgrind") is None:
         return [{"t": "fatal", "reason": "valgrind not found"}]
-    exe = buildlib.ensure_driver("rel", "c10_guards")
+    exe = buildlib.ensure_driver("cfg-gxx-O0", "c10_guards")   # unoptimised: locals live in memory, so memcheck sees their definedness
     cmd = ["valgrind", "--quiet", "--error-exitcode=97", exe, "--seed", str(seed), "--tier", "quick", "--shard", "0/1", "--scale", "1", "--only", "catalogue"]
     try:
         r = subprocess.run(cmd, stdout=subprocess.PIPE, stderr=subprocess.PIPE, timeout=3 * 3600)
